@@ -64,3 +64,22 @@ Example C04_oracle_with_ignore_list_nonvacuous :
   min_wfd_model_ign [(0, 0); (1, 0); (0, 3); (3, 2)]%N 1%N 2%N [(0, 0)%N] [((0, 0)%N, 2%nat)] [((0, 3)%N, 2%nat)] 3 = Some 1%nat.
 Proof. exact loop_oracle_ign. Qed.
 Print Assumptions C04_oracle_with_ignore_list_nonvacuous.
+
+(* bridged to the declarative notion of the class: for an integer instance with natural-number flows and a user ignore list, the oracle's
+   answer is the least c_k admitting a WalkEncIff.walk_decomposition whose walks pass every edge that is not kept at most capn(e) times
+   (ign_within_caps: the ignored edges at most as often as the capacity list says -- the engine passes the model's repetition cap --, source
+   and sink edges once); None iff there is none up to kmax.  Of the four conjuncts of WalkEncIff.within_caps this is the multiplicity cap on
+   the ignored edges; the caps on the kept edges, the weight bound w_max and the bit width are not part of the statement (for integer
+   weights >= 1 a kept edge is passed at most f(e) times by any decomposition) *)
+Theorem C04_oracle_with_ignore_list_decides_minimum_within_caps :
+  forall (I : kfdc_inst) (capl fl : list (PathEnc.edge * nat)) (kmax : nat),
+  c_int I = true ->
+  (forall e, In e (kept_edges I) -> (flow_of I e == qn (fnat fl e))%Q) ->
+  let capn := capn_ign (g_src (c_graph I)) (g_snk (c_graph I)) capl in
+  match min_wfd_model_ign (g_edges (c_graph I)) (g_src (c_graph I)) (g_snk (c_graph I)) (c_ignore I) capl fl kmax with
+  | Some k => (k <= kmax)%nat /\ (exists P wt, walk_decomposition (kfdc_with_k I k) P wt /\ ign_within_caps (kfdc_with_k I k) capn P) /\
+              (forall j P wt, walk_decomposition (kfdc_with_k I j) P wt -> ign_within_caps (kfdc_with_k I j) capn P -> (k <= j)%nat)
+  | None => forall j P wt, walk_decomposition (kfdc_with_k I j) P wt -> ign_within_caps (kfdc_with_k I j) capn P -> (kmax < j)%nat
+  end.
+Proof. exact oracle_with_ignore_list_decides_minimum. Qed.
+Print Assumptions C04_oracle_with_ignore_list_decides_minimum_within_caps.
